@@ -310,7 +310,42 @@ type c20Cfg struct {
 	Pre    [2][]int  `json:"pre"`
 	Suite  string    `json:"suite"`
 	Preset [2]uint64 `json:"preset"` // epoch-3 records each side is made to have sent before the script starts (0: untouched)
+	Shadow [2][]int  `json:"shadow"` // per side: message numbers for which an unauthenticated fragment sits in ITS reassembly buffer
+	Plant  *c20Plant `json:"plant"`  // how that fragment got there (nil: nothing planted)
 }
+
+// c20Plant: one unprotected (epoch 0) handshake fragment sent to Victim by an off-path sender while
+// the handshake is still running, right after the After-th genuine datagram reached the victim. It
+// claims message number Base(peer)+J = the peer's (J+1)-th post-handshake message.
+type c20Plant struct {
+	Victim string `json:"victim"`
+	J      int    `json:"j"`
+	Msg    int    `json:"msg"`
+	After  int    `json:"after"`
+	Form   int    `json:"form"` // 0: complete one-byte message; 1: first byte of a two-byte message (never completes)
+	RecSeq uint64 `json:"rec_seq"`
+}
+
+// c20ForgedFragment: plaintext record (content type 22, epoch 0) with one handshake fragment
+// {type key_update, length, message_seq, offset 0, fragment_length 1, body 00}.
+func c20ForgedFragment(recSeq uint64, msg int, form int) []byte {
+	length := byte(1)
+	if form == 1 {
+		length = 2
+	}
+	hs := []byte{24, 0, 0, length, byte(msg >> 8), byte(msg), 0, 0, 0, 0, 0, 1, 0}
+	rec := []byte{22, 0xfe, 0xfd, 0, 0, 0, 0, 0, 0, 0, 0, 0, 0}
+	var seq [8]byte
+	binary.BigEndian.PutUint64(seq[:], recSeq)
+	copy(rec[5:11], seq[2:])
+	binary.BigEndian.PutUint16(rec[11:], uint16(len(hs)))
+
+	return append(rec, hs...)
+}
+
+// message numbers each side uses for its first post-handshake message in this configuration
+// (protocol constants; learnt from the first plain establishment of the process)
+var c20BaseSeen *[2]int //nolint:gochecknoglobals
 
 type c20Trace struct {
 	Kind    string    `json:"kind"`
@@ -407,11 +442,32 @@ var c20LongEpochs = []uint64{ //nolint:gochecknoglobals
 	65536, 65536 + 300, 1 << 17, 1 << 24, 65530, 65536 + 32768, 1<<32 + 7, 3 * 65536,
 }
 
-func c20Start(t *testing.T, variant string, suite CipherSuiteID, w int, preset [2]uint64) *c20Sim {
+func c20Start(t *testing.T, variant string, suite CipherSuiteID, w int, preset [2]uint64, plant *c20Plant) *c20Sim {
 	t.Helper()
+	if plant != nil && c20BaseSeen == nil {
+		dry := c20Start(t, "dry", suite, w, [2]uint64{}, nil)
+		dry.lab.close()
+	}
 	ccfg, scfg := c20Configs(suite, w)
 	lab := newLab(t, ccfg, scfg)
+	if plant != nil {
+		p := *plant
+		plant = &p
+		peer := lab.other(plant.Victim).Name
+		plant.Msg = c20BaseSeen[c20SideIdx(peer)] + plant.J
+		forged := c20ForgedFragment(plant.RecSeq, plant.Msg, plant.Form)
+		n := 0
+		lab.Pump.OnDeliver = func(d vDatagram) {
+			if d.To != plant.Victim {
+				return
+			}
+			if n++; n == plant.After {
+				lab.Net.deliver(plant.Victim, peer, forged)
+			}
+		}
+	}
 	lab.Pump.run(lab.bothDone, 200*time.Second)
+	lab.Pump.OnDeliver = nil
 	if !lab.established() {
 		t.Fatalf("DTLS 1.3 handshake failed: client=%v server=%v", lab.Client.Err, lab.Server.Err)
 	}
@@ -432,6 +488,17 @@ func c20Start(t *testing.T, variant string, suite CipherSuiteID, w int, preset [
 		}
 		sim.tr.Cfg.Base[i] = st.HandshakeSendSequence
 		sim.tr.Cfg.Pre[i] = []int{}
+		sim.tr.Cfg.Shadow[i] = []int{}
+	}
+	if c20BaseSeen == nil {
+		c20BaseSeen = &[2]int{sim.tr.Cfg.Base[0], sim.tr.Cfg.Base[1]}
+	}
+	if plant != nil {
+		if *c20BaseSeen != sim.tr.Cfg.Base {
+			t.Fatalf("post-handshake message numbers %v differ from the first establishment %v", sim.tr.Cfg.Base, *c20BaseSeen)
+		}
+		sim.tr.Cfg.Plant = plant
+		sim.tr.Cfg.Shadow[c20SideIdx(plant.Victim)] = []int{plant.Msg}
 	}
 	if c20State13(lab.Client.Conn).HandshakeRecvSequence != sim.tr.Cfg.Base[1] ||
 		c20State13(lab.Server.Conn).HandshakeRecvSequence != sim.tr.Cfg.Base[0] {
@@ -918,6 +985,70 @@ func (g *c20Gen) scenarioLongEpoch() {
 	g.settle()
 }
 
+// scenarioShadow: the victim's reassembly buffer holds an unauthenticated fragment numbered like the
+// peer's (J+1)-th post-handshake message (planted during the handshake, see c20Plant). The peer
+// updates its keys J+1 times over a network that loses at most a first transmission or a first ACK,
+// both sides write before, between and after the updates, the victim updates its own keys too (its
+// direction is not affected); everything the peer writes after its last update is handed over.
+func (g *c20Gen) scenarioShadow(pl *c20Plant) {
+	s, rng := g.sim, g.rng
+	victim := pl.Victim
+	sender := s.lab.other(victim).Name
+	writes := func(max int) {
+		for n := rng.intn(max + 1); n > 0; n-- {
+			g.nextPay++
+			s.opWrite(c20Sides[rng.intn(2)], g.nextPay)
+		}
+	}
+	for k := 0; k <= pl.J; k++ {
+		writes(2)
+		g.flush()
+		if rng.chance(25) {
+			s.opUpdate(victim, false)
+			g.flush()
+		}
+		s.opUpdate(sender, rng.chance(30))
+		g.sync()
+		switch rng.intn(4) {
+		case 0: // the first transmission of the KeyUpdate is lost
+			if len(g.inflight) > 0 {
+				g.old = append(g.old, g.take(0))
+			}
+			writes(1)
+			s.opTime(time.Second)
+		case 1: // the first ACK is lost
+			if len(g.inflight) > 0 {
+				r := g.take(0)
+				s.opDeliver(r)
+				g.old = append(g.old, r)
+				g.sync()
+				for i := 0; i < len(g.inflight); i++ {
+					if rec := s.tr.Recs[g.inflight[i]]; rec.From == victim && rec.Kind == "ack" {
+						g.old = append(g.old, g.take(i))
+
+						break
+					}
+				}
+				s.opTime(time.Second)
+			}
+		default:
+		}
+		g.flush()
+		if rng.chance(30) && len(g.old) > 0 {
+			s.opDeliver(g.old[rng.intn(len(g.old))]) // late copy
+			g.flush()
+		}
+	}
+	// written after the last UpdateKeys returned, over a perfect network
+	for n := 1 + rng.intn(3); n > 0; n-- {
+		g.nextPay++
+		s.opWrite(sender, g.nextPay)
+	}
+	writes(2)
+	g.flush()
+	g.settle()
+}
+
 // TestVerifC20Trace: datagram-level deterministic runs (one operation at a time, synctest.Wait in
 // between); every step's observable output is compared with the model by checks/c20.py.
 func TestVerifC20Trace(t *testing.T) {
@@ -938,11 +1069,24 @@ func TestVerifC20Trace(t *testing.T) {
 					preset[k] = c20LongEpochs[rng.intn(len(c20LongEpochs))]
 				}
 			}
-			sim := c20Start(t, variant, suite, 0, preset)
+			var plant *c20Plant
+			if i%8 == 5 {
+				// an off-path sender planted one unprotected fragment during the handshake
+				variant = "shadow"
+				plant = &c20Plant{
+					Victim: c20Sides[rng.intn(2)], J: 1 + rng.intn(3), After: 1 + rng.intn(2),
+					// record number inside the epoch-0 replay window of the genuine flights: trees in which
+					// unprotected records still moved that window (before 5206069) complete the handshake too
+					Form: rng.intn(2), RecSeq: uint64(10 + rng.intn(50)),
+				}
+			}
+			sim := c20Start(t, variant, suite, 0, preset, plant)
 			sim.tr.Case = i
 			sim.tr.Cfg.Suite = sname
 			g := &c20Gen{sim: sim, rng: rng}
 			switch variant {
+			case "shadow":
+				g.scenarioShadow(sim.tr.Cfg.Plant)
 			case "retained":
 				g.scenarioRetained()
 			case "early":
@@ -1034,7 +1178,7 @@ func TestVerifC20Conc(t *testing.T) {
 				preset = [2]uint64{}
 				bulk = 65536 + 100 + rng.intn(200)
 			}
-			sim := c20Start(t, "conc", suite, 0, preset)
+			sim := c20Start(t, "conc", suite, 0, preset, nil)
 			lab := sim.lab
 			res := &c20Conc{
 				Kind: "conc", Case: i, Writers: 1 + rng.intn(3), Loss: []int{0, 10, 30, 50}[rng.intn(4)],
@@ -1208,7 +1352,7 @@ func TestVerifC20Replay(t *testing.T) {
 				suite = id
 			}
 		}
-		sim := c20Start(t, in.Variant, suite, 0, in.Cfg.Preset)
+		sim := c20Start(t, in.Variant, suite, 0, in.Cfg.Preset, in.Cfg.Plant)
 		sim.tr.Case = in.Case
 		sim.tr.Cfg.Suite = in.Cfg.Suite
 		sim.tr.Note = "replay"
